@@ -4,6 +4,7 @@ import (
 	"encoding/json"
 	"fmt"
 	"os"
+	"path/filepath"
 	"sort"
 	"sync"
 	"time"
@@ -118,17 +119,33 @@ func NewAppBinary(db dbm.DB, home string, previous bool) (*app.App, error) {
 	if previous {
 		app.Upgrades = saved[:len(saved)-1]
 	}
+	// Real nodes construct the application with loadLatest=true (which also runs whatever the
+	// constructor does after loading). A load failure there calls os.Exit, so when an upgrade
+	// store loader is about to run (upgrade-info.json present) the load is first tried on a
+	// throw-away instance that reports the error instead.
+	if _, err := os.Stat(filepath.Join(home, "data", "upgrade-info.json")); err == nil {
+		var probe *app.App
+		func() {
+			defer func() { app.Upgrades = saved }()
+			probe = app.New(log.NewNopLogger(), db, nil, false, opts, baseapp.SetChainID(ChainID))
+		}()
+		if previous {
+			app.Upgrades = saved[:len(saved)-1]
+		}
+		if err := probe.LoadLatestVersion(); err != nil {
+			app.Upgrades = saved
+			appBuildMu.Unlock()
+			return nil, err
+		}
+	}
 	var a *app.App
 	func() {
 		defer func() {
 			app.Upgrades = saved
 			appBuildMu.Unlock()
 		}()
-		a = app.New(log.NewNopLogger(), db, nil, false, opts, baseapp.SetChainID(ChainID))
+		a = app.New(log.NewNopLogger(), db, nil, true, opts, baseapp.SetChainID(ChainID))
 	}()
-	if err := a.LoadLatestVersion(); err != nil {
-		return nil, err
-	}
 	return a, nil
 }
 
